@@ -751,6 +751,13 @@ macro_rules! apply_ops {
                         b.header(n.as_str(), &vals[..])
                     }
                 }
+                "many" => {
+                    let mut b2 = b;
+                    for n in o["ns"].as_array().unwrap() {
+                        b2 = b2.header(n.as_str().unwrap(), hval("v1"));
+                    }
+                    b2
+                }
                 "ctype" => b.content_type("application/x-custom+thing".parse::<crux_http::http::Mime>().unwrap()),
                 "body" => match o["k"].as_str().unwrap() {
                     "string" => b.body_string(BODY_STRING.to_string()),
